@@ -540,6 +540,7 @@ package client
 //@   fresh res0
 //@   modifies state(nc)
 //@   ensures busOps(nc) == old(busOps(nc)) + 1 && logKept(nc) && sentN(nc) == old(sentN(nc)) && treeKept(nc)
+//@   ensures len(res0) <= 140737488355328
 //@   ensures res1 == nil && id == "all" && !includeDel ==> (forall k int :: 0 <= k && k < len(res0) ==> isChild(nc, parent, res0[k].ID))
 //@   ensures res1 == nil && parent == "all" ==> (forall k int :: 0 <= k && k < len(res0) ==> res0[k].ID == id && (!includeDel ==> isChild(nc, res0[k].Parent, id)))
 //@ extern data.(NodeEdge).Desc(n)
@@ -602,6 +603,7 @@ package client
 // splitN/splitPart of the subject): decoding and splitting are deterministic.
 
 //@ model func toldN(c Client) int
+//@ model func stopReqs(c Client) int
 //@ model func toldEdge(c Client, i int) bool
 //@ model func toldNode(c Client, i int) string
 //@ model func toldParent(c Client, i int) string
@@ -609,18 +611,21 @@ package client
 //@ spec func toldKept(c Client) bool = toldN(c) >= old(toldN(c)) && (forall i int :: i < old(toldN(c)) ==> toldEdge(c, i) == old(toldEdge(c, i)) && toldNode(c, i) == old(toldNode(c, i)) && toldParent(c, i) == old(toldParent(c, i)) && sameSlice(toldPts(c, i), old(toldPts(c, i))))
 //@ extern client.(Client).Points(self, nodeID, points)
 //@   modifies self
-//@   ensures toldKept(self) && toldN(self) == old(toldN(self)) + 1 && !toldEdge(self, old(toldN(self))) && toldNode(self, old(toldN(self))) == nodeID && sameSlice(toldPts(self, old(toldN(self))), points)
+//@   ensures toldKept(self) && toldN(self) == old(toldN(self)) + 1 && !toldEdge(self, old(toldN(self))) && toldNode(self, old(toldN(self))) == nodeID && sameSlice(toldPts(self, old(toldN(self))), points) && stopReqs(self) == old(stopReqs(self))
 //@ extern client.(Client).EdgePoints(self, nodeID, parentID, points)
 //@   modifies self
-//@   ensures toldKept(self) && toldN(self) == old(toldN(self)) + 1 && toldEdge(self, old(toldN(self))) && toldNode(self, old(toldN(self))) == nodeID && toldParent(self, old(toldN(self))) == parentID && sameSlice(toldPts(self, old(toldN(self))), points)
+//@   ensures toldKept(self) && toldN(self) == old(toldN(self)) + 1 && toldEdge(self, old(toldN(self))) && toldNode(self, old(toldN(self))) == nodeID && toldParent(self, old(toldN(self))) == parentID && sameSlice(toldPts(self, old(toldN(self))), points) && stopReqs(self) == old(stopReqs(self))
 //@ extern client.(*clientState[T]).stop(cs, err)
+//@   requires cs != nil
+//@   modifies cs.client
+//@   ensures toldKept(cs.client) && toldN(cs.client) == old(toldN(cs.client)) && stopReqs(cs.client) == old(stopReqs(cs.client)) + 1
 
 //@ spec func own(p data.Point, nodeID string, self string) bool = (p.Origin == "" && nodeID == self) || p.Origin == self
 //@ spec func restarts(p data.Point) bool = (p.Type == "tombstone" && (p.Value == 1.0 || p.Value == 0.0)) || p.Type == "nodeType"
 //@ spec func batchIs(pts []data.Point, b []byte) bool = len(pts) == pbN(b) && (forall k int :: 0 <= k && k < len(pts) ==> pts[k] == pbPt(b, k))
 
 //@ func (*Manager[T]).scan$2
-//@   props C08
+//@   props C08 C07
 //@   local msg *nats.Msg#1
 //@   local points data.Points#1
 //@   local nodeID string#1
@@ -630,6 +635,8 @@ package client
 //@   ensures [C08] foreign-node-points-delivered: pbOK(msg.Data) && splitN(msg.Subject, ".") == 3 && (forall k int :: 0 <= k && k < pbN(msg.Data) ==> !own(pbPt(msg.Data, k), splitPart(msg.Subject, ".", 2), cs.node.ID)) ==> toldN(cs.client) == old(toldN(cs.client)) + 1 && !toldEdge(cs.client, old(toldN(cs.client))) && toldNode(cs.client, old(toldN(cs.client))) == splitPart(msg.Subject, ".", 2) && batchIs(toldPts(cs.client, old(toldN(cs.client))), msg.Data)
 //@   ensures [C08] own-node-points-dropped: splitN(msg.Subject, ".") == 3 && (exists k int :: 0 <= k && k < pbN(msg.Data) && own(pbPt(msg.Data, k), splitPart(msg.Subject, ".", 2), cs.node.ID)) ==> toldN(cs.client) == old(toldN(cs.client))
 //@   ensures [C08] edge-points-delivered: pbOK(msg.Data) && splitN(msg.Subject, ".") == 4 && cs.client != nil && (forall k int :: 0 <= k && k < pbN(msg.Data) ==> !restarts(pbPt(msg.Data, k))) ==> toldN(cs.client) == old(toldN(cs.client)) + 1 && toldEdge(cs.client, old(toldN(cs.client))) && toldNode(cs.client, old(toldN(cs.client))) == splitPart(msg.Subject, ".", 2) && toldParent(cs.client, old(toldN(cs.client))) == splitPart(msg.Subject, ".", 3) && batchIs(toldPts(cs.client, old(toldN(cs.client))), msg.Data)
+//@   ensures [C07] child-change-restarts-the-client: pbOK(msg.Data) && splitN(msg.Subject, ".") == 4 && (exists k int :: 0 <= k && k < pbN(msg.Data) && restarts(pbPt(msg.Data, k))) ==> stopReqs(cs.client) == old(stopReqs(cs.client)) + 1
+//@   ensures [C07] no-restart-without-cause: splitN(msg.Subject, ".") != 4 || !pbOK(msg.Data) || (forall k int :: 0 <= k && k < pbN(msg.Data) ==> !restarts(pbPt(msg.Data, k))) ==> stopReqs(cs.client) == old(stopReqs(cs.client))
 //@   ensures [C08] malformed-dropped: (!pbOK(msg.Data) || (splitN(msg.Subject, ".") != 3 && splitN(msg.Subject, ".") != 4)) ==> toldN(cs.client) == old(toldN(cs.client))
 //@   loop 1:
 //@     invariant -1 <= rangeindex && rangeindex < len(points) || rangeindex == -1
@@ -645,6 +652,107 @@ package client
 //@   loop 4:
 //@     invariant true
 //@     modifies state(cs.nc)
+
+// ---- manager.go (C07): the sequential core of the manager's bookkeeping ----------------------------------------
+// Decided here (one call of scan / newClientState / the subscription callback, all inputs): a client is only
+// constructed for a placement (parent-id) that has none; after a scan every placement found has a client state;
+// scan asks exactly the clients of placements it did not find to stop; a client state is built from the node
+// and the children the store lists for it at that moment. NOT decided (goroutines, channels, timers): the
+// run/stop handshake, the manager's select loop, that a stopped client is restarted, that Stop returns.
+//@ spec func placement(n data.NodeEdge) string = n.Parent + "-" + n.ID
+
+//@ func mapKey
+//@   props C07
+//@   local node data.NodeEdge#1
+//@   ensures [C07] key-is-parent-and-id: result == placement(node)
+
+// Decode is reflect-driven (C10/C11 check it on a bounded domain): here only its frame is used - it writes the value
+// behind `output` and nothing else.
+//@ extern data.Decode(input, output)
+//@   modifies pointee(output)
+
+//@ func newClientState
+//@   props C07
+//@   local nc *nats.Conn#1
+//@   local n data.NodeEdge#1
+//@   local c []data.NodeEdge#1
+//@   local ncc []data.NodeEdgeChildren#1
+//@   local nec data.NodeEdgeChildren#1
+//@   local client client.Client#1
+//@   modifies state(nc), state(client.Client)
+//@   ensures [C07] failed-gives-no-state: res1 != nil ==> res0 == nil
+//@   ensures [C07] state-is-of-the-node: res1 == nil ==> res0 != nil && isfresh(res0) && res0.node == n && res0.nc == nc && res0.nec.NodeEdge == n
+//@   assert [C07] children-are-the-current-answer: nec.NodeEdge == n && len(nec.Children) == len(c) && (forall k int :: 0 <= k && k < len(c) ==> nec.Children[k].NodeEdge == c[k] && len(nec.Children[k].Children) == 0) at "data.Decode(nec, &config)"
+//@   loop 1:
+//@     invariant -1 <= rangeindex && rangeindex < len(c) || rangeindex == -1
+//@     invariant len(ncc) == len(c)
+//@     invariant forall k int :: 0 <= k && k <= rangeindex ==> ncc[k].NodeEdge == c[k] && len(ncc[k].Children) == 0
+//@     modifies ncc
+//@     decreases len(c) - rangeindex
+
+//@ func (*Manager[T]).scanHelper
+//@   props C07
+//@   local m *client.Manager[T]#1
+//@   local id string#1
+//@   local nodes []data.NodeEdge#1
+//@   local parentNodes []data.NodeEdge#3
+//@   requires m != nil && busAcyclic(m.nc)
+//@   modifies state(m.nc), nodes0
+//@   ensures treeKept(m.nc) && (res1 == nil ==> refOf(res0) == refOf(nodes0) || isfresh(res0))
+//@   decreases busRank(m.nc, id)
+//@   loop 1:
+//@     invariant -1 <= rangeindex && rangeindex < len(m.parentTypes) || rangeindex == -1
+//@     invariant treeKept(m.nc) && (refOf(nodes) == refOf(nodes0) || isfresh(nodes))
+//@     invariant refOf(nodes) == refOf(preloop(nodes)) || sinceLoop(nodes)
+//@     modifies state(m.nc), nodes
+//@     decreases len(m.parentTypes) - rangeindex
+//@   loop 2:
+//@     invariant -1 <= rangeindex && rangeindex < len(parentNodes) || rangeindex == -1
+//@     invariant treeKept(m.nc) && (refOf(nodes) == refOf(nodes0) || isfresh(nodes))
+//@     invariant refOf(nodes) == refOf(preloop(nodes)) || sinceLoop(nodes)
+//@     invariant refOf(parentNodes) != refOf(nodes) && refOf(parentNodes) != refOf(nodes0)
+//@     invariant forall k int :: 0 <= k && k < len(parentNodes) ==> isChild(m.nc, id, parentNodes[k].ID)
+//@     modifies state(m.nc), nodes
+//@     decreases len(parentNodes) - rangeindex
+
+//@ model func skipped(g *verifGhost, key string) bool
+//@ spec func skippedKept() bool = forall k string :: old(skipped(verifG, k)) ==> skipped(verifG, k)
+//@ extern github.com/nats-io/nats.go.(*Conn).Subscribe(nc, subj, cb)
+//@   fresh res0
+//@   modifies state(nc)
+
+//@ func (*Manager[T]).scan
+//@   props C07
+//@   local m *client.Manager[T]#1
+//@   local nodes []data.NodeEdge#1
+//@   local found map[string]bool#1
+//@   local n data.NodeEdge#1
+//@   local key string#2
+//@   local cs *client.clientState[T]#1
+//@   local client *client.clientState[T]#2
+//@   requires m != nil && m.clientStates != nil && m.clientUpSub != nil && busAcyclic(m.nc)
+//@   requires forall k string :: has(m.clientStates, k) ==> m.clientStates[k] != nil
+//@   modifies m.clientStates, m.clientUpSub, state(m.nc), state(client.Client), state(client.verifGhost)
+//@   havoc state(client.verifGhost) at "log.Printf(\"Error starting client %v: %v\", n, err)"
+//@   assume construction-failure-noted: forall k string :: skipped(verifG, k) == (before(skipped(verifG, k)) || k == key) at "log.Printf(\"Error starting client %v: %v\", n, err)"
+//@   assert [C07] no-second-client-for-a-placement: !has(m.clientStates, placement(n)) at "newClientState(m.nc, m.construct, n)"
+//@   assert [C07] client-registered-under-its-placement: cs != nil && has(m.clientStates, placement(n)) && m.clientStates[placement(n)] == cs && cs.node == n at "fmt.Sprintf(\"up.%v.>\", cs.node.ID)"
+//@   assert [C07] only-vanished-placements-stopped: !has(found, key) && client == m.clientStates[key] at "client.stop(nil)"
+//@   ensures [C07] client-states-kept: forall k string :: old(has(m.clientStates, k)) ==> has(m.clientStates, k) && m.clientStates[k] == old(m.clientStates[k])
+//@   ensures [C07] no-nil-state: forall k string :: has(m.clientStates, k) ==> m.clientStates[k] != nil
+//@   loop 1:
+//@     invariant -1 <= rangeindex && rangeindex < len(nodes) || rangeindex == -1
+//@     invariant forall k string :: old(has(m.clientStates, k)) ==> has(m.clientStates, k) && m.clientStates[k] == old(m.clientStates[k])
+//@     invariant forall k string :: has(m.clientStates, k) ==> m.clientStates[k] != nil
+//@     invariant skippedKept()
+//@     invariant [C07] found-is-the-scanned-placements: forall j int :: 0 <= j && j <= rangeindex ==> has(found, placement(nodes[j]))
+//@     invariant [C07] found-only-scanned-placements: forall k string :: has(found, k) ==> (exists j int :: 0 <= j && j <= rangeindex && k == placement(nodes[j]))
+//@     invariant [C07] every-scanned-placement-has-a-client: forall j int :: 0 <= j && j <= rangeindex ==> has(m.clientStates, placement(nodes[j])) || skipped(verifG, placement(nodes[j]))
+//@     modifies found, m.clientStates, m.clientUpSub, state(m.nc), state(client.Client), state(client.verifGhost)
+//@     decreases len(nodes) - rangeindex
+//@   loop 2:
+//@     invariant forall k string :: has(m.clientStates, k) ==> m.clientStates[k] != nil
+//@     modifies state(client.Client)
 
 // ---- node.go: GetNodesForUser (C09) ---------------------------------------------------------------------------
 // below(nc, a, n): n is a descendant of a in the tree the bus shows.
